@@ -17,8 +17,9 @@ prop("C10",
           "inverse Levinson reference, shrunk by 0.9 until cond_2(T)<=1e6, and (b) as biased autocorrelations of generated "
           "data (order lowered until cond<=1e6); orders q<=p; real, complex, real-valued-complex, integer and list "
           "inputs; indefinite sequences with one |k_j| in [1.05,3] at a drawn position j (j=0: |r1|>r0, rest free).  "
-          "General Toeplitz systems of size 2..40: strictly diagonally dominant with t0 of either sign / any phase, and "
-          "Hermitian PD ones; HPD systems M M^H + I and HPD Toeplitz for CHOLESKY x 3 back ends; real and complex "
+          "General Toeplitz systems of size 2..40: strictly diagonally dominant with t0 of either sign / any phase, "
+          "Hermitian PD ones, and (size 2..13) non-dominant ones built from two-sided reflection coefficients "
+          "|g|<=1.5 with |1-g1 g2|>=0.2 whose leading blocks all have cond<=1e6; HPD systems M M^H + I and HPD Toeplitz for CHOLESKY x 3 back ends; real and complex "
           "right-hand sides.  Non-trivial: order>=2 and (complex or q<p) [Levinson]; size>=3 and a non-zero "
           "off-diagonal [solvers].  Distinct = SHA-1 of the case descriptor.",
      assumptions=["numpy dense linear algebra (matrix product, cond, roots, solve only for classification) is the trusted base; "
@@ -30,7 +31,8 @@ prop("C10",
                   "indefinite means r0>0 and a first non-positive prediction error at a known step (|k_j|>=1.05); sequences with "
                   "r0<=0 are not autocorrelation sequences and are not generated",
                   "general TOEPLITZ is a Levinson-type solver: admissible = every leading principal block non-singular and "
-                  "well-conditioned (strict diagonal dominance, or Hermitian positive definite)"],
+                  "well-conditioned (strict diagonal dominance, Hermitian positive definite, or max cond of the leading blocks <= 1e6; "
+                  "residual tolerance 1e-12*that cond*|z|, worst measured 4.4e-16)"],
      title="Levinson and the Toeplitz/Hermitian solvers solve their equations")
 
 R0S = [1.0, 0.1, 10.0, 3.7, 1e-3, 1e4]
@@ -78,6 +80,43 @@ def _gtoep(t0, tc, tr):
 
 def _cond(T):
     return float(np.linalg.cond(T))
+
+
+def _gtoep_from_refl(t0, g1, g2):
+    """General Toeplitz matrix with prescribed two-sided 'reflection coefficients': pivot ratios
+    P_k = P_{k-1} (1 - g1_k g2_k), so every leading principal block is non-singular iff no g1_k g2_k equals 1.
+    Returns (tc, tr).  (Generator only: the oracle of the solver is the dense residual.)"""
+    M = len(g1)
+    tc = np.zeros(M, dtype=complex)
+    tr = np.zeros(M, dtype=complex)
+    A = np.zeros(M, dtype=complex)
+    B = np.zeros(M, dtype=complex)
+    P = complex(t0)
+    for k in range(M):
+        tc[k] = -g1[k] * P - (np.dot(A[:k], tc[k - 1::-1][:k]) if k else 0.0)
+        tr[k] = -g2[k] * P - (np.dot(B[:k], tr[k - 1::-1][:k]) if k else 0.0)
+        P = P * (1 - g1[k] * g2[k])
+        An = A.copy()
+        Bn = B.copy()
+        An[:k] = A[:k] + g1[k] * B[:k][::-1]
+        Bn[:k] = B[:k] + g2[k] * A[:k][::-1]
+        An[k] = g1[k]
+        Bn[k] = g2[k]
+        A, B = An, Bn
+    return tc, tr
+
+
+def _leading_cond(T):
+    return max(_cond(T[:i, :i]) for i in range(1, T.shape[0] + 1))
+
+
+def _fix_products(g1, g2, away=0.2):
+    """keep every 1 - g1_k g2_k at distance >= away from 0"""
+    g2 = g2.copy()
+    for i in range(len(g1)):
+        while abs(1 - g1[i] * g2[i]) < away:
+            g2[i] = 0.7 * g2[i]
+    return g2
 
 
 def _shrink_to_cond(k, cmax=CMAX):
@@ -446,7 +485,33 @@ def toeplitz_case(draw, phase):
     cplx = draw(st.booleans())
     M = draw(st.one_of(st.integers(1, 39), st.integers(1, 8)))
     dt = "complex" if cplx else "real"
-    fam = draw(st.sampled_from(["dominant", "dominant", "sparse"] + ([] if phase else ["hpd"])))
+    fam = draw(st.sampled_from(["dominant", "dominant", "sparse", "refl"] + ([] if phase else ["hpd"])))
+    if fam == "refl" and (phase or not cplx):
+        # not diagonally dominant: two-sided reflection coefficients, leading blocks with cond <= CMAX.
+        # D14-free variant: real, |g|<=0.9, so every pivot stays positive; phase variant: |g|<=1.5, real or complex.
+        M = draw(st.integers(1, 12))
+        gmax = 1.5 if phase else 0.9
+
+        def gvec():
+            mod = np.array(draw(st.lists(st.floats(0.0, gmax), min_size=M, max_size=M)))
+            if cplx:
+                return mod * np.exp(1j * np.array(draw(st.lists(st.floats(0, 6.283185), min_size=M, max_size=M))))
+            return mod * np.array([1.0 if b else -1.0 for b in draw(st.lists(st.booleans(), min_size=M, max_size=M))]) + 0j
+        g1 = gvec()
+        g2 = _fix_products(g1, gvec())
+        for _ in range(200):
+            tc, tr = _gtoep_from_refl(1.0, g1, g2)
+            if _leading_cond(_gtoep(1.0, tc, tr)) <= CMAX:
+                break
+            g1 = 0.9 * g1
+            g2 = _fix_products(g1, 0.9 * g2)
+        ph = 0.0
+        if phase:
+            ph = draw(st.floats(0.0, 6.283185)) if cplx else draw(st.sampled_from([0.0, float(np.pi)]))
+        return {"fam": "refl", "M": M, "complex": cplx, "z": _rhs(draw, M + 1, draw(st.booleans())), "form": "array",
+                "g1": _kdesc(g1, cplx), "g2": _kdesc(g2, cplx), "t0_phase": ph, "t0_abs": draw(st.sampled_from([1.0, 0.1, 10.0]))}
+    if fam == "refl":
+        fam = "dominant"
     case = {"fam": fam, "M": M, "complex": cplx, "z": _rhs(draw, M + 1, draw(st.booleans())),
             # list arguments only in the phase variant: with Python scalars the guard behind D14 fails differently
             "form": draw(st.sampled_from(["array", "array", "list"])) if phase else "array"}
@@ -478,6 +543,18 @@ def _toeplitz_body(ctx, case):
         t0 = float(r[0].real)
         tc = r[1:]
         tr = np.conj(r[1:])
+    elif case["fam"] == "refl":
+        ph = case["t0_phase"]
+        if not case["complex"]:
+            t0 = -case["t0_abs"] if ph else case["t0_abs"]
+        else:
+            t0 = complex(case["t0_abs"] * np.exp(1j * ph)) if ph else case["t0_abs"]
+        tc, tr = _gtoep_from_refl(t0, gen.kvec(case["g1"]), gen.kvec(case["g2"]))
+        if not case["complex"]:
+            tc = tc.real.copy()
+            tr = tr.real.copy()
+        T = _gtoep(t0, tc, tr)
+        c = _leading_cond(T)
     else:
         tc = gen.realise(case["tc"]).astype(complex if case["complex"] else float)
         tr = gen.realise(case["tr"]).astype(complex if case["complex"] else float)
